@@ -8,4 +8,4 @@ CONSTANTS
  MaxCalls = 3
  Reps = 12
  Budget = 120
- PrefixLen = 1
+ PrefixLen = 2
